@@ -1057,7 +1057,58 @@ theorem other_os_not_contained :
     safeFilename ⟨.other, true, true, .none, 0⟩ (fun c => [c]) (fun _ => []) (lit "../x")
       = .ok (lit "../x") := by decide
 
+/-- **options_os_known**: whatever `--restrict-file-names` list the user gives (any subset,
+any order, repeated, empty, or the default), the namer the setup task builds has
+`os_type` "unix" or "windows" — never an absent / other value that would switch the
+escaping of "/" off. -/
+theorem options_os_known (modes : List Mode) (maxLen : Int) : (optionsToCfg modes maxLen).os ≠ .other := by
+  unfold optionsToCfg
+  simp only
+  split <;> simp
+
+/-- **argv_get_filename_contained**: `get_filename_contained` for the namer built from the
+command line: for EVERY option list (restrict modes, length limit, prefix, non-empty
+default page, directory options, cut, protocol / host directories) no assumption on
+`os_type` is left. -/
+theorem argv_get_filename_contained (modes : List Mode) (maxLen : Int) (root index : Str) (nUrls : Nat)
+    (pr rc : Bool) (d : DirOpt) (cut : Nat) (protocol hostname : Bool)
+    (tbl : Nat → Str) (sha : Str → Str) (ext : Ext) (isFtp : Bool) (url p : Str)
+    (ht : TableSane tbl) (hd : ShaSane sha) (hi : index ≠ []) (hu : HasScheme url)
+    (h : getFilename (namerOfArgs modes maxLen root index nUrls pr rc d cut protocol hostname)
+          tbl sha ext isFtp url = .ok p) :
+    ∃ comps : List Str, comps ≠ [] ∧
+      p = rootPrefix root ++ joinWith [47] comps ∧
+      splitOn1 (joinWith [47] comps) 47 = comps ∧
+      ∀ r ∈ comps, SafeComponent (!modes.contains .nocontrol) r ∧
+        (modes.contains .windows = true → ∀ c ∈ r, c ∉ winChars) := by
+  have := get_filename_contained _ tbl sha ext isFtp url p (options_os_known modes maxLen) ht hd hi hu h
+  obtain ⟨comps, h1, h2, h3, h4⟩ := this
+  refine ⟨comps, h1, h2, h3, ?_⟩
+  intro r hr
+  obtain ⟨hs, hw⟩ := h4 r hr
+  refine ⟨hs, ?_⟩
+  intro hwin
+  apply hw
+  have hmem : Mode.windows ∈ modes := by simpa using hwin
+  simp [namerOfArgs, optionsToCfg, hmem]
+
+/-- the same for the Content-Disposition rename of a writer built from the command line -/
+theorem argv_content_disposition_contained (modes : List Mode) (maxLen : Int)
+    (tbl : Nat → Str) (sha : Str → Str) (cur : Str) (isHttp hasHeader : Bool) (m1 m2 : Option Str) (p : Str)
+    (ht : TableSane tbl) (hd : ShaSane sha)
+    (h : renameCD (optionsToCfg modes maxLen) tbl sha cur isHttp hasHeader m1 m2 = .ok p) :
+    p = cur ∨ ∃ comp, p = rootPrefix (dirname cur) ++ comp ∧
+      SafeComponent (!modes.contains .nocontrol) comp :=
+  match content_disposition_contained _ tbl sha cur isHttp hasHeader m1 m2 p
+      (options_os_known modes maxLen) ht hd h with
+  | .inl h => .inl h
+  | .inr ⟨comp, h1, h2, _⟩ => .inr ⟨comp, h1, h2⟩
+
 /-! ## non-vacuity -/
+
+example : (optionsToCfg [.ascii, .lower] 160).os = .unix := by decide
+example : (optionsToCfg [.nocontrol, .windows, .upper] 0) = ⟨.windows, false, false, .upper, 0⟩ := rfl
+example : (optionsToCfg [] 160) = ⟨.unix, true, false, .none, 160⟩ := rfl
 
 example : safeFilename ⟨.unix, true, true, .none, 0⟩ (fun c => [c]) (fun _ => []) (lit "..") = .ok (lit "%2E%2E") := by decide
 example : safeFilename ⟨.unix, true, true, .lower, 0⟩ (fun c => [c]) (fun _ => []) [97, 0, 233] = .ok (lit "a%00%c3%a9") := by decide
